@@ -502,6 +502,23 @@ fn sessions(ctx: &Ctx, shard: usize, n: u64, rep: &mut Report) {
             }
         }
     }
+    if shard == 4 {
+        // what the caller says is what goes out: a chunk count of 0 (or any other) after k data chunks is written as given
+        for k in [0usize, 1, 2, 3] {
+            for count in [0u16, 1, k as u16, 0xFFFF] {
+                let mut msgs: Vec<RefMsg> = (0..k).map(|i| RefMsg::Data { offset: (i * 16) as u16, data: vec![i as u8; 16] }).collect();
+                msgs.push(RefMsg::Count(count));
+                msgs.push(RefMsg::Query(3));
+                msgs.push(RefMsg::Count(0));
+                msgs.push(RefMsg::Data { offset: 0, data: vec![] });
+                msgs.push(RefMsg::Count(0));
+                let mut tape = refs::wire(&RefMsg::Report(3, S_PIX_RECV));
+                tape.extend_from_slice(SENTINEL);
+                run_session(&msgs, tape, vec![], vec![], vec![], WriteAct::Accept(usize::MAX), rep);
+                rep.count("sessions_with_chunks_and_counts");
+            }
+        }
+    }
     if shard == 1 {
         // one bus instance, 70 000 messages (more than any 16-bit counter holds), each judged like any other
         let msgs: Vec<RefMsg> = (0..70_000usize).map(|i| if i % 3 == 0 { RefMsg::Query((i / 3) as u16) } else { pool(&mut rng) }).collect();
@@ -761,6 +778,7 @@ pub fn run(ctx: &Ctx) -> Outcome {
     floors.push(floor("sessions that go on after a reply was cut short (read error / end of stream mid-session)", report.get("session_read_faults_hit") > 500, report.get("session_read_faults_hit")));
     floors.push(floor("a failing read right after each kind of reply (15 reply kinds x 3 next requests x 3 positions x 4 failures)", report.get("sessions_failing_read_after_each_reply_kind") == 15 * 3 * 3 * 4, report.get("sessions_failing_read_after_each_reply_kind")));
     floors.push(floor("two ordinary exchanges after exactly k failing ones (14 counts x 5 kinds of failure)", report.get("sessions_after_k_failures") == 70, report.get("sessions_after_k_failures")));
+    floors.push(floor("data chunks followed by chunk counts of 0 / 1 / k / 65535 through one bus", report.get("sessions_with_chunks_and_counts") == 16, report.get("sessions_with_chunks_and_counts")));
     floors.push(floor("one bus instance used for 70 000 messages", report.get("long_session_messages_checked") == 70_000, report.get("long_session_messages_checked")));
     floors.push(floor("multi-message sessions on one bus (write failure at every call index + random)", report.get("session_core_done") == 1 && report.get("sessions") > 1000 && report.get("session_write_failures_hit") > 100, report.get("sessions")));
     floors.push(floor("fault-at-every-index case lists ran", report.get("cases/write_fault_each_call") > 50 && report.get("cases/read_fault_each_position") > 100 && report.get("cases/read_fragmentation") == 4096, report.get("cases/read_fault_each_position")));
